@@ -340,6 +340,173 @@ def gen_empty_value_docs(ctx, n_small, n_random):
     return docs
 
 
+# ------------------------------------------------------------------ white space of every kind in every slot
+# Hard-coded fact, NOT read from the library under test: what Emmet's scanners call white space.  Upstream
+# @emmetio/scanner, utils.ts: isWhiteSpace(c) is c === 32 (space) || c === 9 (tab) || c === 160 ("non-breaking space"),
+# isSpace(c) is isWhiteSpace(c) || c === 10 (LF) || c === 13 (CR); the CSS matcher skips exactly these between tokens
+# and trims exactly these from a rule's content range.  So for the matcher a NO-BREAK SPACE is white space like a blank:
+# it is never part of a selector, a property name or a value it stands next to, it never starts or ends one, and it is
+# trimmed from both ends of a rule's content; inside strings, comments and parentheses it is an ordinary character.
+# (css_util.is_space / css_util.trim, which the oracle uses for content ranges, hard-code the same five characters.)
+# Editors and copy/paste from web pages and word processors produce NBSP indentation and `name:<NBSP>value`.
+# A sheet is written in ONE white space style; every white space slot of the sheet draws its run from the style:
+WS_UNITS = {'space': ' ', 'tab': '\t', 'lf': '\n', 'cr': '\r', 'crlf': '\r\n', 'nbsp': '\xa0'}
+WS_STYLES = ('space', 'tab', 'lf', 'cr', 'crlf', 'nbsp',            # one unit only, runs of one to three
+             'lf+nbsp-indent', 'crlf+nbsp-indent', 'lf+tab-indent', 'cr+space-indent',   # line break + indentation
+             'mixed', 'mixed-nbsp-at-the-ends')                       # runs of one to four units of any kind
+# slots at which a line may break (between items, before the closing brace, at the ends of the file); all others
+# (around the colon, between selector and brace, between the words of a selector or value, before the semicolon,
+# inside parentheses / strings / comments) are within a line
+WS_LINE_SLOTS = ('before-declaration', 'before-selector', 'before-closing-brace', 'file-start', 'file-end',
+                 'before-comment', 'after-comment')
+WS_NO_BREAK_SLOTS = ('inside-string',)      # a raw line break ends a string for the scanner (and for CSS)
+WS_EMPTY_SHARES = (0.0, 0.3, 0.6, 1.0)      # share of the optional slots left empty (1.0: no white space at all)
+
+
+class WsStyle:
+    """the white space writer of one sheet"""
+
+    def __init__(self, rng, cover, style, p_empty):
+        self.rng, self.cover, self.style, self.p_empty = rng, cover, style, p_empty
+        self.depth = 0
+        # every other sheet is small (at most two items per body, one level of nesting): short replays
+        self.n_max, self.max_depth = rng.choice(((2, 2), (3, 3)))
+
+    def _run(self, slot):
+        rng, st = self.rng, self.style
+        if slot in WS_NO_BREAK_SLOTS:
+            units = {'tab': ['tab'], 'lf+tab-indent': ['tab', 'space'], 'nbsp': ['nbsp'], 'space': ['space'],
+                     'cr+space-indent': ['space']}.get(st, ['nbsp', 'space', 'tab'] if 'nbsp' in st or 'mixed' in st else ['space'])
+            return [rng.choice(units) for _ in range(rng.randint(1, 2))]
+        if st in WS_UNITS:
+            return [st] * rng.randint(1, 3)
+        if st.endswith('-indent'):
+            brk, ind = st[:-len('-indent')].split('+')
+            if slot in WS_LINE_SLOTS:
+                return [brk] * rng.choice((1, 1, 2)) + [ind] * rng.choice((self.depth, self.depth, 2 * self.depth, 1))
+            return [rng.choice((ind, ind, 'space'))] * rng.choice((1, 1, 2))
+        names = sorted(WS_UNITS)
+        run = [rng.choice(names) for _ in range(rng.randint(1, 4))]
+        if st == 'mixed-nbsp-at-the-ends':
+            where = rng.choice(('first', 'last', 'both', 'only'))
+            if where in ('first', 'both'):
+                run[0] = 'nbsp'
+            if where in ('last', 'both'):
+                run[-1] = 'nbsp'
+            if where == 'only':
+                run = ['nbsp'] * len(run)
+        return run
+
+    def __call__(self, slot, need=False):
+        if not need and self.rng.random() < self.p_empty:
+            self.cover('ws:%s:none' % slot)
+            return ''
+        run = self._run(slot)
+        if not run:
+            self.cover('ws:%s:none' % slot)
+            return ''
+        kinds = sorted(set(run))
+        self.cover('ws:%s:%s' % (slot, kinds[0] if len(kinds) == 1 else 'mixed-with-nbsp' if 'nbsp' in kinds else 'mixed'))
+        # which unit touches the token that follows / precedes the slot
+        self.cover('ws:unit-before-next-token:%s' % run[-1])
+        self.cover('ws:unit-after-previous-token:%s' % run[0])
+        return ''.join(WS_UNITS[u] for u in run)
+
+    def word(self, w, slot):
+        """the blanks inside a selector / a parenthesised expression rewritten in the style (never left out)"""
+        if ' ' not in w or '"' in w or "'" in w:
+            return w
+        return ''.join(self(slot, need=True) if ch == ' ' else ch for ch in w)
+
+    def comment(self):
+        rng = self.rng
+        if rng.random() < 0.5:
+            return rng.choice(U.COMMENTS)
+        return '/*' + self('inside-comment') + rng.choice(['x', 'a: b;', '{', '}', ';', 'c { d: e; }']) + self('inside-comment') + '*/'
+
+    def string(self):
+        rng = self.rng
+        q = rng.choice('"\'')
+        bits = ['{', '}', ';', ':', '(', ')', '/*', '*/', '\\' + q, '\\\\', 'a', 'x']
+        out = ''
+        for _ in range(rng.randint(1, 4)):
+            out += self('inside-string', need=True) if rng.random() < 0.5 else rng.choice(bits)
+        return q + out + q
+
+    def gap(self, slot):
+        """white space and comments before an item / before the closing brace"""
+        out = ''
+        while self.rng.random() < 0.2:
+            out += self('before-comment') + self.comment()
+            out += self('after-comment') if self.rng.random() < 0.3 else ''
+        return out + self(slot)
+
+
+def ws_items(W, depth, top):
+    """mk_sheet_ev specification of a body written by the white space writer W"""
+    rng = W.rng
+    spec = []
+    n = rng.randint(1 if top else 0, W.n_max)
+    for i in range(n):
+        W.depth = depth
+        if depth < W.max_depth and rng.random() < (0.7 if top else 0.3):
+            spec.append(W.gap('file-start' if top and i == 0 else 'before-selector'))
+            sel = pick(rng, [lambda: W.word(rng.choice(U.SELECTORS), 'inside-selector'),
+                             lambda: W.word(rng.choice(U.SELECTORS), 'inside-selector'),
+                             lambda: 'a[title=%s]' % W.string()])
+            between = W('between-selector-and-brace')
+            if rng.random() < 0.1:
+                between += W.comment() + W('between-selector-and-brace')
+            spec.append(('rule', sel, between, ws_items(W, depth + 1, False)))
+        else:
+            spec.append(W.gap('file-start' if top and i == 0 else 'before-declaration'))
+            name = rng.choice(U.NAMES)
+            pre = W('before-colon') if rng.random() < 0.3 else ''
+            if rng.random() < 0.12:
+                # value-less declaration whose slot holds white space of the style (or nothing)
+                W.cover('ws:declaration-with-empty-value')
+                spec.append(('decl', name, pre, W('empty-value-slot'), [], '', True))
+                continue
+            post = W('after-colon')
+            if rng.random() < 0.08:
+                post += W.comment() + W('after-colon')
+            atoms = []
+            for j in range(rng.choice((1, 1, 2, 3))):
+                if j == 0:
+                    sep = ''
+                else:
+                    sep = pick(rng, [lambda: W('between-value-words', need=True), lambda: W('between-value-words', need=True),
+                                     lambda: W('before-comma') + ',' + W('after-comma'),
+                                     lambda: W('between-value-words') + '/' + W('between-value-words'),
+                                     lambda: W('between-value-words') + W.comment() + W('between-value-words')])
+                atoms.append((sep, pick(rng, [lambda: W.word(rng.choice(U.ATOMS), 'inside-parentheses'),
+                                              lambda: W.word(rng.choice(U.ATOMS), 'inside-parentheses'),
+                                              W.string, lambda: 'url(' + W.string() + ')'])))
+            tail = W('before-semicolon') if rng.random() < 0.3 else ''
+            if rng.random() < 0.06:
+                tail += W.comment() + (W('before-semicolon') if rng.random() < 0.3 else '')
+            spec.append(('decl', name, pre, post, atoms, tail, True))
+    W.depth = max(depth - 1, 0)
+    spec.append(W.gap('file-end' if top else 'before-closing-brace'))
+    return spec
+
+
+def gen_ws_docs(ctx, n):
+    """Stylesheets written in one white space style each (WS_STYLES x WS_EMPTY_SHARES in turn, so that every style is
+    met with every share of omitted slots): random trees of nested rules and declarations in which EVERY white space
+    slot is filled by the style, with the same kind of record as U.gen_sheet."""
+    combos = [(st, pe) for pe in WS_EMPTY_SHARES for st in WS_STYLES if not (pe == 1.0 and st != 'space')]
+    ctx.rng.shuffle(combos)
+    docs = []
+    for k in range(n):
+        st, pe = combos[k % len(combos)]
+        docs.append(mk_sheet_ev(ws_items(WsStyle(ctx.rng, ctx.cover, st, pe), 0, True)))
+        ctx.cover('ws:sheets')
+        ctx.cover('ws:style:%s' % ('no-white-space-at-all' if pe == 1.0 else st))
+        ctx.cover('ws:optional-slots-left-empty-%d%%' % int(pe * 100))
+    return docs
+
+
 # the systematic shapes, as mk_sheet_ev specifications with a hole _D for the value-less declaration:
 # a{D}  a { D }  a{Dc:d;}  a{c:d;D}  a{c:d; D e:f;}  a{b{D}}  a{b{}D}  a{Db{c:d;}}  D  Da{}  a{}D  a{}\nD\nb{c:d;}
 # @media (min-width: 1px) { a:hover {D} }  a{/* x */D/* y */}  a{c:"};";Dc:(d);}
@@ -850,6 +1017,8 @@ def run(ctx):
     docs += gen_wide_docs(ctx, 70 if quick else 1400)
     n_wide = len(docs)
     docs += gen_empty_value_docs(ctx, 90 if quick else 10 ** 6, 40 if quick else 800)
+    n_empty = len(docs)
+    docs += gen_ws_docs(ctx, 90 if quick else 1800)
     texts = [t for t, _ in docs]
     impls = U.impl_docs(texts, FUNCS, procs)
     ctx.cover('docs', len(docs))
@@ -870,7 +1039,7 @@ def run(ctx):
         bad = oracle_doc(text, items, im)
         for f, (pos, why) in bad.items():
             failures.append((len(text), i, f, pos, why))
-        if n_corpus <= i < n_corpus + 3 or n_classic <= i < n_classic + 2 or n_wide <= i < n_wide + 2:
+        if n_corpus <= i < n_corpus + 3 or n_classic <= i < n_classic + 2 or n_wide <= i < n_wide + 2 or n_empty <= i < n_empty + 2:
             ctx.sample({'text': text, 'match@%d' % (len(text) // 2): repr(im['match'][len(text) // 2 + 1]),
                         'outward': repr(im['outward'][len(text) // 2 + 1])})
     failures.sort()
